@@ -775,7 +775,7 @@ func Run(c *core.Ctx, focus string) {
 	var outs []childOut
 	for pi, procs := range []int{1, 8} {
 		arg, _ := json.Marshal(map[string]interface{}{"edges": edgeFile, "dir": filepath.Join(base, fmt.Sprintf("p%d", pi)), "procs": procs,
-			"walks": c.Pick(30, 400), "maxTours": c.Pick(250, 0), "focus": focus, "initBal": exportInitBal(exportCfg), "budgetSec": c.Pick(240, 600)})
+			"walks": c.Pick(30, 400), "maxTours": c.Pick(250, 0), "focus": focus, "initBal": exportInitBal(exportCfg), "budgetSec": c.Pick(240, 420)})
 		results, at, crash := c.RunChild(string(arg), c.MinutesT(6, 40))
 		if crash != "" {
 			if crash == "TIMEOUT" {
